@@ -1,6 +1,6 @@
 import MuscleModel.Conc.ProofsRCStep
 
-/-! # Preservation of the joint invariant by the granted actions (`doAct`) and by `startOp` (lemmas for C10) -/
+/-! # Preservation of the joint invariant by the granted actions (`doAct`) (lemmas for C10) -/
 
 namespace Muscle.Conc.RC
 open Muscle.Conc Muscle.Conc.Pool
@@ -11,6 +11,19 @@ theorem cntDec_cons (a : Act) (l : List Act) (o : Oid) : cntDec (a :: l) o = cnt
 theorem cntRel_cons (a : Act) (l : List Act) (o : Oid) : cntRel (a :: l) o = cntRel [a] o + cntRel l o := by
   rw [← cntRel_append]; rfl
 
+theorem setObj_self (f : Oid → Obj) (o : Oid) : setObj f o (f o) = f := by
+  funext x; by_cases hx : x = o
+  · subst hx; simp
+  · simp [setObj, hx]
+
+theorem cntL_pos {l : List (Oid × Oid)} {x n : Oid} (h : (x, n) ∈ l) : 0 < cntL l n := by
+  induction l with
+  | nil => cases h
+  | cons p r ih =>
+    rcases List.mem_cons.mp h with rfl | h
+    · simp [cntL]; omega
+    · have := ih h; simp only [cntL]; omega
+
 /-- dropping a neutral head action -/
 theorem inv_drop {c : Cfg} {t : Nat} {th : Th} {act : Act} {more : List Act} (h : Inv c) (ht : c.ths[t]? = some th)
     (htodo : th.todo = act :: more) (hn : Neutral [act]) :
@@ -18,10 +31,7 @@ theorem inv_drop {c : Cfg} {t : Nat} {th : Th} {act : Act} {more : List Act} (h 
   refine inv_local (g' := c.glob) h ht ?_ rfl ?_ ?_
   · intro o; simp only [Th.refs, htodo]; rw [cntDec_cons act more, hn.1 o]; omega
   · intro o; simp only [htodo]; rw [cntRel_cons act more, hn.2.1 o]; omega
-  · intro s hs; rw [htodo]; exact List.mem_cons_of_mem _ hs
-
-theorem neutral_single_incTmp (b : Nat) : Neutral [.incTmp b] := ⟨fun _ => rfl, fun _ => rfl, fun _ => by simp⟩
-theorem neutral_single_incSwap (a b : Nat) : Neutral [.incSwap a b] := ⟨fun _ => rfl, fun _ => rfl, fun _ => by simp⟩
+  · intro x _ hs; rw [htodo]; exact List.mem_cons_of_mem _ hs
 
 /-- dropping the pending slab deletion -/
 theorem inv_delSlab {c : Cfg} {t : Nat} {th : Th} {s : Slab} {more : List Act} (h : Inv c) (ht : c.ths[t]? = some th)
@@ -30,53 +40,118 @@ theorem inv_delSlab {c : Cfg} {t : Nat} {th : Th} {s : Slab} {more : List Act} (
   refine inv_local (g' := c.glob) h ht ?_ rfl ?_ ?_
   · intro o; simp only [Th.refs, htodo, cntDec]
   · intro o; simp only [htodo, cntRel]
-  · intro s' hs; rw [htodo]; exact List.mem_cons_of_mem _ hs
+  · intro x _ hs; rw [htodo]; exact List.mem_cons_of_mem _ hs
 
-theorem slot_alive {c : Cfg} {t : Nat} {th : Th} {b : Nat} {o : Oid} (h : Inv c) (ht : c.ths[t]? = some th) (hs : slotOf th b = some o) :
+theorem slot_alive {c : Cfg} {t : Nat} {th : Th} {b : Nat} {o : Oid} (h : Inv c) (ht : c.ths[t]? = some th) (hs : slotOf th b = some (o, true)) :
     (c.obj o).alive = true ∧ 0 < (c.obj o).count := by
   have hp := slot_refs_pos ht hs
   exact ⟨h.alive o hp, by rw [h.cnt o]; exact hp⟩
 
-theorem inv_incFrom {c : Cfg} {t : Nat} {th : Th} {a b : Nat} {o : Oid} {more : List Act} (h : Inv c) (ht : c.ths[t]? = some th)
-    (htodo : th.todo = .incFrom a b :: more) (ha : th.slots[a]? = some none) (hs : slotOf th b = some o) :
-    Inv { c with obj := setObj c.obj o { c.obj o with count := (c.obj o).count + 1 },
-                 ths := c.ths.set t { th with slots := th.slots.set a (some o), todo := more } } := by
-  have ⟨hal, hc⟩ := slot_alive h ht hs
-  refine inv_inc h ht hal ?_ (Or.inl ⟨rfl, hc⟩) ?_ ?_
+/-- one more reference to a live object `o`: the count goes up by one -/
+theorem inv_inc {c : Cfg} {t : Nat} {th th' : Th} {o : Oid} {l' : List (Oid × Oid)} (h : Inv c) (ht : c.ths[t]? = some th)
+    (halive : (c.obj o).alive = true)
+    (hr : ∀ x, th'.refs x + cntL l' x = th.refs x + cntL c.links x + (if x = o then 1 else 0))
+    (hraws : (th'.raw = th.raw ∧ 0 < (c.obj o).count) ∨ (th.raw = some o ∧ th'.raw = none))
+    (hrel : ∀ x, cntRel th'.todo x = cntRel th.todo x)
+    (hsub : ∀ x, Special x → x ∈ th'.todo → x ∈ th.todo)
+    (hlnd : (l'.map (·.1)).Nodup)
+    (hla : ∀ x n, (x, n) ∈ l' → (x, n) ∈ c.links ∨ (c.obj x).alive = true) :
+    Inv { c with obj := bump c o, links := l', ths := c.ths.set t th' } := by
+  have := inv_obj1 (o := o) (ob' := { c.obj o with count := (c.obj o).count + 1 }) (p' := c.pool) (nh' := c.nextHeap) (th' := th') (l' := l') h ht h.pool
+    (by intro x hx; simp [hr x, hx])
+    (by have := hr o; simp at this; simp only; omega)
+    (fun _ => Or.inl halive)
+    (fun _ => halive)
+    (by
+      intro x hx
+      rcases hraws with ⟨h1, h2⟩ | ⟨h1, h2⟩
+      · rw [h1] at hx
+        by_cases hxo : x = o
+        · subst hxo; have := (h.raw t th x ht hx).2; omega
+        · exact Or.inr ⟨hxo, hx⟩
+      · rw [h2] at hx; cases hx)
+    (by
+      intro _ hc
+      rcases hraws with ⟨_, h2⟩ | ⟨h1, _⟩
+      · omega
+      · exact Or.inr h1)
+    (by
+      intro hx
+      rcases hraws with ⟨h1, _⟩ | ⟨_, h2⟩
+      · rw [h1] at hx; exact Or.inl hx
+      · rw [h2] at hx; cases hx)
+    (by simp only; exact h.acq o)
+    (by intro x; rw [aliveN_setObj_alive c.obj o { c.obj o with count := (c.obj o).count + 1 } rfl, hrel x])
+    (by
+      intro k hk; refine ⟨hk, ?_⟩
+      intro he; subst he; have := (h.heapFresh k hk).1; rw [halive] at this; cases this)
+    (by intro k hk; subst hk; simp only; exact h.heapMgr k)
+    (by intro k hk; subst hk; simp only; exact h.heapAcq k)
+    (by intro s i hk _; subst hk; simp only; exact h.nodeMgr s i halive)
+    (by intro s i hk ha; subst hk; simp only at ha; rw [halive] at ha; cases ha)
+    (fun x hx hs => Or.inl (hsub x hx hs))
+    (fun _ hs => hs)
+    hlnd
+    (by
+      intro x n hm
+      exact ⟨fun _ => halive, fun _ => hla x n hm⟩)
+  exact this
+
+
+theorem sub_tail {th : Th} {act : Act} {more : List Act} (htodo : th.todo = act :: more) :
+    ∀ x, Special x → x ∈ more → x ∈ th.todo := fun x _ hs => by rw [htodo]; exact List.mem_cons_of_mem _ hs
+
+theorem sub_decOld_tail {th : Th} {act : Act} {more : List Act} (htodo : th.todo = act :: more) (v : Slot) :
+    ∀ x, Special x → x ∈ decOld v ++ more → x ∈ th.todo := by
+  intro x hx hs
+  rcases List.mem_append.mp hs with hs | hs
+  · exact absurd hs (special_not_mem_decOld _ x hx)
+  · rw [htodo]; exact List.mem_cons_of_mem _ hs
+
+/-- `slot[a]` becomes a counting reference to `o` (count + 1), its old content is queued for `UnrefItem()` -/
+theorem inv_incInto {c : Cfg} {t : Nat} {th : Th} {a : Nat} {o : Oid} {act : Act} {more : List Act} {raw' : Option Oid}
+    (h : Inv c) (ht : c.ths[t]? = some th) (htodo : th.todo = act :: more) (hact : ∀ x, cntDec [act] x = 0) (hactr : ∀ x, cntRel [act] x = 0)
+    (ha : a < th.slots.length) (halive : (c.obj o).alive = true)
+    (hraws : (raw' = th.raw ∧ 0 < (c.obj o).count) ∨ (th.raw = some o ∧ raw' = none)) :
+    Inv { c with obj := bump c o,
+                 ths := c.ths.set t { th with slots := th.slots.set a (some (o, true)), raw := raw', todo := decOld (slotOf th a) ++ more } } := by
+  have := inv_inc (l' := c.links) (th' := { th with slots := th.slots.set a (some (o, true)), raw := raw', todo := decOld (slotOf th a) ++ more })
+    h ht halive ?_ hraws ?_ (sub_decOld_tail htodo _) h.linksND (fun x n hm => Or.inl hm)
+  · exact this
   · intro x
-    have := cntS_set (y := some o) (o := x) ha
-    simp only [Th.refs, htodo, cntDec] at *
-    simp at this
+    have := cntS_set (y := some (o, true)) (o := x) (slotOf_lt ha)
+    have h1 := hact x
+    simp only [Th.refs, htodo, cntDec_append, cntDec_decOld] at *
+    rw [cntDec_cons act more, h1]
     by_cases hx : x = o
     · subst hx; simp at this ⊢; omega
     · have hx' : ¬ o = x := fun e => hx e.symm
       simp [hx, hx'] at this ⊢; omega
-  · intro x; simp only [htodo, cntRel]
-  · intro s hs'; rw [htodo]; exact List.mem_cons_of_mem _ hs'
+  · intro x
+    have h1 := hactr x
+    simp only [htodo, cntRel_append, cntRel_decOld]
+    rw [cntRel_cons act more, h1]
+
+theorem inv_incSlot {c : Cfg} {t : Nat} {th : Th} {a b : Nat} {o : Oid} {more : List Act} (h : Inv c) (ht : c.ths[t]? = some th)
+    (htodo : th.todo = .incSlot a b :: more) (ha : a < th.slots.length) (hs : slotOf th b = some (o, true)) :
+    Inv { c with obj := bump c o,
+                 ths := c.ths.set t { th with slots := th.slots.set a (some (o, true)), todo := decOld (slotOf th a) ++ more } } := by
+  have ⟨hal, hc⟩ := slot_alive h ht hs
+  exact inv_incInto (raw' := th.raw) h ht htodo (fun _ => rfl) (fun _ => rfl) ha hal (Or.inl ⟨rfl, hc⟩)
 
 theorem inv_incRaw {c : Cfg} {t : Nat} {th : Th} {a : Nat} {o : Oid} {more : List Act} (h : Inv c) (ht : c.ths[t]? = some th)
-    (htodo : th.todo = .incRaw a :: more) (ha : th.slots[a]? = some none) (hs : th.raw = some o) :
-    Inv { c with obj := setObj c.obj o { c.obj o with count := (c.obj o).count + 1 },
-                 ths := c.ths.set t { th with slots := th.slots.set a (some o), raw := none, todo := more } } := by
+    (htodo : th.todo = .incRaw a :: more) (ha : a < th.slots.length) (hs : th.raw = some o) :
+    Inv { c with obj := bump c o,
+                 ths := c.ths.set t { th with slots := th.slots.set a (some (o, true)), raw := none, todo := decOld (slotOf th a) ++ more } } := by
   have ⟨hal, _⟩ := h.raw t th o ht hs
-  refine inv_inc h ht hal ?_ (Or.inr ⟨hs, rfl⟩) ?_ ?_
-  · intro x
-    have := cntS_set (y := some o) (o := x) ha
-    simp only [Th.refs, htodo, cntDec] at *
-    simp at this
-    by_cases hx : x = o
-    · subst hx; simp at this ⊢; omega
-    · have hx' : ¬ o = x := fun e => hx e.symm
-      simp [hx, hx'] at this ⊢; omega
-  · intro x; simp only [htodo, cntRel]
-  · intro s hs'; rw [htodo]; exact List.mem_cons_of_mem _ hs'
+  exact inv_incInto (raw' := none) h ht htodo (fun _ => rfl) (fun _ => rfl) ha hal (Or.inr ⟨hs, rfl⟩)
 
 theorem inv_incTmp {c : Cfg} {t : Nat} {th : Th} {b : Nat} {o : Oid} {more : List Act} (h : Inv c) (ht : c.ths[t]? = some th)
-    (htodo : th.todo = .incTmp b :: more) (hs : slotOf th b = some o) :
-    Inv { c with obj := setObj c.obj o { c.obj o with count := (c.obj o).count + 1 },
-                 ths := c.ths.set t { th with todo := more ++ [.dec o] } } := by
+    (htodo : th.todo = .incTmp b :: more) (hs : slotOf th b = some (o, true)) :
+    Inv { c with obj := bump c o, ths := c.ths.set t { th with todo := more ++ [.dec o] } } := by
   have ⟨hal, hc⟩ := slot_alive h ht hs
-  refine inv_inc h ht hal ?_ (Or.inl ⟨rfl, hc⟩) ?_ ?_
+  have := inv_inc (l' := c.links) (th' := { th with todo := more ++ [.dec o] }) h ht hal ?_ (Or.inl ⟨rfl, hc⟩) ?_ ?_ h.linksND (fun x n hm => Or.inl hm)
+  · exact this
   · intro x
     simp only [Th.refs, htodo, cntDec, cntDec_append]
     by_cases hx : x = o
@@ -84,323 +159,87 @@ theorem inv_incTmp {c : Cfg} {t : Nat} {th : Th} {b : Nat} {o : Oid} {more : Lis
     · have hx' : ¬ o = x := fun e => hx e.symm
       simp [hx, hx']
   · intro x; simp only [htodo, cntRel, cntRel_append]; omega
-  · intro s hs'
+  · intro x hx hs'
     simp only [List.mem_append, List.mem_singleton] at hs'
     rcases hs' with hs' | hs'
     · rw [htodo]; exact List.mem_cons_of_mem _ hs'
-    · cases hs'
+    · subst hs'; exact absurd hx id
 
-theorem inv_incSwap {c : Cfg} {t : Nat} {th : Th} {a b : Nat} {o : Oid} {more : List Act} (h : Inv c) (ht : c.ths[t]? = some th)
-    (htodo : th.todo = .incSwap a b :: more) (ha : a < th.slots.length) (hs : slotOf th b = some o) :
-    Inv { c with obj := setObj c.obj o { c.obj o with count := (c.obj o).count + 1 },
-                 ths := c.ths.set t { th with slots := th.slots.set a (some o), todo := decOld (slotOf th a) ++ more } } := by
-  have ⟨hal, hc⟩ := slot_alive h ht hs
-  refine inv_inc h ht hal ?_ (Or.inl ⟨rfl, hc⟩) ?_ ?_
+theorem countsElsewhere_spec {th : Th} {a : Nat} {o : Oid} (h : countsElsewhere th a o = true) : ∃ b, b ≠ a ∧ slotOf th b = some (o, true) := by
+  simp only [countsElsewhere, List.any_eq_true, List.mem_range, decide_eq_true_eq] at h
+  obtain ⟨b, _, h1, h2⟩ := h
+  exact ⟨b, h1, h2⟩
+
+theorem inv_incSame {c : Cfg} {t : Nat} {th : Th} {a : Nat} {o : Oid} {more : List Act} (h : Inv c) (ht : c.ths[t]? = some th)
+    (htodo : th.todo = .incSame a :: more) (hs : slotOf th a = some (o, false)) (hce : countsElsewhere th a o = true) :
+    Inv { c with obj := bump c o, ths := c.ths.set t { th with slots := th.slots.set a (some (o, true)), todo := more } } := by
+  obtain ⟨b, _, hb⟩ := countsElsewhere_spec hce
+  have ⟨hal, hc⟩ := slot_alive h ht hb
+  have := inv_inc (l' := c.links) (th' := { th with slots := th.slots.set a (some (o, true)), todo := more }) h ht hal ?_ (Or.inl ⟨rfl, hc⟩) ?_
+    (sub_tail htodo) h.linksND (fun x n hm => Or.inl hm)
+  · exact this
   · intro x
-    have := cntS_set (y := some o) (o := x) (slotOf_lt ha)
-    simp only [Th.refs, htodo, cntDec, cntDec_append, cntDec_decOld] at *
+    have := cntS_set (y := some (o, true)) (o := x) (slot_get hs)
+    simp only [Th.refs, htodo, cntDec] at *
     by_cases hx : x = o
     · subst hx; simp at this ⊢; omega
     · have hx' : ¬ o = x := fun e => hx e.symm
       simp [hx, hx'] at this ⊢; omega
-  · intro x; simp only [htodo, cntRel, cntRel_append, cntRel_decOld]; omega
-  · intro s hs'
-    simp only [List.mem_append] at hs'
-    rcases hs' with hs' | hs'
-    · exact absurd hs' (delSlab_not_mem_decOld _ s)
-    · rw [htodo]; exact List.mem_cons_of_mem _ hs'
+  · intro x; simp only [htodo, cntRel]
 
-
-theorem dec_facts {c : Cfg} {t : Nat} {th : Th} {o : Oid} {more : List Act} (h : Inv c) (ht : c.ths[t]? = some th)
-    (htodo : th.todo = .dec o :: more) :
-    (c.obj o).alive = true ∧ 0 < (c.obj o).count ∧ th.raw ≠ some o ∧ ∀ k, c.nextHeap ≤ k → o ≠ .heap k := by
-  have h1 : 0 < th.refs o := by simp [Th.refs, htodo, cntDec]; omega
-  have h2 := th_refs_le ht o
-  have hal := h.alive o (by omega)
-  have hc : 0 < (c.obj o).count := by rw [h.cnt o]; omega
-  refine ⟨hal, hc, ?_, ?_⟩
-  · intro hr; have := (h.raw t th o ht hr).2; omega
-  · intro k hk he; subst he; have := (h.heapFresh k hk).1; rw [hal] at this; cases this
-
-theorem aliveN_setObj_heap (f : Oid → Obj) (k : Nat) (v : Obj) (x : Oid) : aliveN (setObj f (.heap k) v) x = aliveN f x := by
-  cases x with
-  | heap j => rfl
-  | node s i => simp [aliveN, setObj]
-
-theorem aliveN_setObj_node (f : Oid → Obj) (s i : Nat) (v : Obj) (x : Oid) :
-    aliveN (setObj f (.node s i) v) x + (if x = .node s i then b2n (f (.node s i)).alive else 0) =
-    aliveN f x + (if x = .node s i then b2n v.alive else 0) := by
-  cases x with
-  | heap j => simp [aliveN]
-  | node s' i' =>
-    by_cases hx : Oid.node s' i' = Oid.node s i
-    · rw [hx]; simp [aliveN]; omega
-    · simp [aliveN, setObj, hx]
-
-/-- the decrement that does not reach zero -/
-theorem inv_dec_more {c : Cfg} {t : Nat} {th : Th} {o : Oid} {more : List Act} (h : Inv c) (ht : c.ths[t]? = some th)
-    (htodo : th.todo = .dec o :: more) (hnz : ¬ (c.obj o).count - 1 = 0) :
-    Inv { c with obj := setObj c.obj o { c.obj o with count := (c.obj o).count - 1 }, ths := c.ths.set t { th with todo := more } } := by
-  have ⟨hal, hc, hraw, hfr⟩ := dec_facts h ht htodo
-  have := inv_obj1 (o := o) (ob' := { c.obj o with count := (c.obj o).count - 1 }) (p' := c.pool) (nh' := c.nextHeap)
-    (th' := { th with todo := more }) h ht h.pool
-    (by intro x hx; have hx' : ¬ o = x := fun e => hx e.symm; simp [Th.refs, htodo, cntDec, hx'])
-    (by simp [Th.refs, htodo, cntDec]; omega)
-    (fun _ => Or.inl hal)
-    (by intro hlt; simp [Th.refs, htodo, cntDec] at hlt; omega)
-    (by intro x hx; by_cases hxo : x = o
-        · subst hxo; exact absurd hx hraw
-        · exact Or.inr ⟨hxo, hx⟩)
-    (by intro _ h0; omega)
-    (fun hx => Or.inl hx)
-    (by simp only; exact h.acq o)
-    (by intro x; rw [aliveN_setObj_alive c.obj o { c.obj o with count := (c.obj o).count - 1 } rfl]; simp [htodo, cntRel])
-    (fun k hk => ⟨hk, hfr k hk⟩)
-    (by intro k hk; subst hk; simp only; exact h.heapMgr k)
-    (by intro k hk; subst hk; simp only; exact h.heapAcq k)
-    (by intro s i hk _; subst hk; simp only; exact h.nodeMgr s i hal)
-    (by intro s i hk ha; subst hk; simp only at ha; rw [hal] at ha; cases ha)
-    (by intro s hs; left; rw [htodo]; exact List.mem_cons_of_mem _ hs)
-    (fun _ hs => hs)
-  exact this
-
-/-- the last reference to a heap object goes away: `delete item` -/
-theorem inv_dec_delete {c : Cfg} {t : Nat} {th : Th} {o : Oid} {more : List Act} (h : Inv c) (ht : c.ths[t]? = some th)
-    (htodo : th.todo = .dec o :: more) (hz : (c.obj o).count - 1 = 0) (hm : (c.obj o).mgr = false) :
-    Inv { c with obj := setObj c.obj o { c.obj o with count := 0, alive := false, rel := (c.obj o).rel + 1 },
-                 ths := c.ths.set t { th with todo := more } } := by
-  have ⟨hal, hc, hraw, hfr⟩ := dec_facts h ht htodo
-  have hheap : ∃ k, o = .heap k := by
-    cases o with
-    | heap k => exact ⟨k, rfl⟩
-    | node s i => have := h.nodeMgr s i hal; rw [hm] at this; cases this
-  obtain ⟨k0, rfl⟩ := hheap
-  have := inv_obj1 (o := .heap k0) (ob' := { c.obj (.heap k0) with count := 0, alive := false, rel := (c.obj (.heap k0)).rel + 1 }) (p' := c.pool) (nh' := c.nextHeap)
-    (th' := { th with todo := more }) h ht h.pool
-    (by intro x hx; have hx' : ¬ Oid.heap k0 = x := fun e => hx e.symm; simp [Th.refs, htodo, cntDec, hx'])
-    (by simp [Th.refs, htodo, cntDec]; omega)
-    (fun _ => Or.inr rfl)
-    (by intro hlt; simp [Th.refs, htodo, cntDec] at hlt; omega)
-    (by intro x hx; by_cases hxo : x = .heap k0
-        · subst hxo; exact absurd hx hraw
-        · exact Or.inr ⟨hxo, hx⟩)
-    (by intro _ h0; omega)
-    (fun hx => Or.inl hx)
-    (by have := h.acq (.heap k0); rw [hal] at this; simp at this ⊢; omega)
-    (by intro x; rw [aliveN_setObj_heap]; simp [htodo, cntRel])
-    (fun k hk => ⟨hk, hfr k hk⟩)
-    (by intro k _; simp only; exact hm)
-    (by intro k _; simp only; exact h.heapAcq k0)
-    (by intro s i hk; cases hk)
-    (by intro s i hk; cases hk)
-    (by intro s hs; left; rw [htodo]; exact List.mem_cons_of_mem _ hs)
-    (fun _ hs => hs)
-  exact this
-
-/-- the last reference to a pooled object goes away: reset to default, `SetManager(NULL)`, queue `ReleaseObjectAux` -/
-theorem inv_dec_recycle {c : Cfg} {t : Nat} {th : Th} {o : Oid} {more : List Act} (h : Inv c) (ht : c.ths[t]? = some th)
-    (htodo : th.todo = .dec o :: more) (hz : (c.obj o).count - 1 = 0) (hm : (c.obj o).mgr = true) :
-    Inv { c with obj := setObj c.obj o { c.obj o with count := 0, alive := false, mgr := false, val := 0, rel := (c.obj o).rel + 1 },
-                 ths := c.ths.set t { th with todo := .release o :: more } } := by
-  have ⟨hal, hc, hraw, hfr⟩ := dec_facts h ht htodo
-  have hnode : ∃ s i, o = .node s i := by
-    cases o with
-    | heap k => have := h.heapMgr k; rw [hm] at this; cases this
-    | node s i => exact ⟨s, i, rfl⟩
-  obtain ⟨s0, i0, rfl⟩ := hnode
-  have := inv_obj1 (o := .node s0 i0)
-    (ob' := { c.obj (.node s0 i0) with count := 0, alive := false, mgr := false, val := 0, rel := (c.obj (.node s0 i0)).rel + 1 })
-    (p' := c.pool) (nh' := c.nextHeap) (th' := { th with todo := .release (.node s0 i0) :: more }) h ht h.pool
-    (by intro x hx; have hx' : ¬ Oid.node s0 i0 = x := fun e => hx e.symm; simp [Th.refs, htodo, cntDec, hx'])
-    (by simp [Th.refs, htodo, cntDec]; omega)
-    (fun _ => Or.inr rfl)
-    (by intro hlt; simp [Th.refs, htodo, cntDec] at hlt; omega)
-    (by intro x hx; by_cases hxo : x = .node s0 i0
-        · subst hxo; exact absurd hx hraw
-        · exact Or.inr ⟨hxo, hx⟩)
-    (by intro _ h0; omega)
-    (fun hx => Or.inl hx)
-    (by have := h.acq (.node s0 i0); rw [hal] at this; simp at this ⊢; omega)
-    (by
-      intro x
-      have := aliveN_setObj_node c.obj s0 i0 { c.obj (.node s0 i0) with count := 0, alive := false, mgr := false, val := 0, rel := (c.obj (.node s0 i0)).rel + 1 } x
-      by_cases hx : x = .node s0 i0
-      · subst hx; simp [hal, htodo, cntRel] at this ⊢; omega
-      · have hx' : ¬ Oid.node s0 i0 = x := fun e => hx e.symm
-        simp [hx, hx', htodo, cntRel] at this ⊢; omega)
-    (fun k hk => ⟨hk, hfr k hk⟩)
-    (by intro k hk; cases hk)
-    (by intro k hk; cases hk)
-    (by intro s i _ ha; simp at ha)
-    (by intro s i _ _; exact ⟨rfl, rfl⟩)
-    (by intro s hs
-        simp only [List.mem_cons] at hs
-        rcases hs with hs | hs
-        · cases hs
-        · left; rw [htodo]; exact List.mem_cons_of_mem _ hs)
-    (fun _ hs => hs)
-  exact this
-
-
-theorem dead_of_outBit_false {c : Cfg} (h : Inv c) {s i : Nat} (hb : outBit c.pool s i = false) :
-    (c.obj (.node s i)).alive = false ∧ pendRel c (.node s i) = 0 := by
-  have := h.out (.node s i)
-  simp only [aliveN, outBitO, hb, b2n_false] at this
-  constructor
-  · cases ha : (c.obj (.node s i)).alive with
-    | false => rfl
-    | true => rw [ha] at this; simp at this
-  · omega
-
-/-- `ObtainObject()`: the node handed out was free, is not referenced by anybody, and becomes the caller's raw pointer -/
-theorem inv_obtain {c : Cfg} {t : Nat} {th : Th} {more : List Act} {p' : PoolSt} {g : Got} (h : Inv c) (ht : c.ths[t]? = some th)
-    (htodo : th.todo = .obtain :: more) (hob : obtain c.pool = (p', g)) :
-    Inv { c with pool := p',
-                 obj := setObj c.obj (.node g.sid g.idx) { c.obj (.node g.sid g.idx) with alive := true, mgr := true, acq := (c.obj (.node g.sid g.idx)).acq + 1 },
-                 ths := c.ths.set t { th with raw := some (.node g.sid g.idx), todo := more } } := by
-  have hs := obtain_spec h.pool
-  rw [hob] at hs
-  obtain ⟨hp', hb0, hb1, hbo, hun⟩ := hs
-  simp only at hp' hb0 hb1 hbo hun
-  have ⟨hdead, hpr⟩ := dead_of_outBit_false h hb0
-  have hc0 := count_zero_of_dead h hdead
-  have := inv_obj1 (o := .node g.sid g.idx)
-    (ob' := { c.obj (.node g.sid g.idx) with alive := true, mgr := true, acq := (c.obj (.node g.sid g.idx)).acq + 1 })
-    (p' := p') (nh' := c.nextHeap) (th' := { th with raw := some (.node g.sid g.idx), todo := more }) h ht hp'
-    (by intro x _; simp [Th.refs, htodo, cntDec])
-    (by simp [Th.refs, htodo, cntDec])
-    (fun _ => Or.inl rfl)
-    (fun _ => rfl)
-    (by intro x hx; simp only [Option.some.injEq] at hx; subst hx; exact Or.inl ⟨rfl, rfl, hc0⟩)
-    (by intro ha; rw [hdead] at ha; cases ha)
-    (fun _ => Or.inr hdead)
-    (by have := h.acq (.node g.sid g.idx); rw [hdead] at this; simp at this ⊢; omega)
-    (by
-      intro x
-      have := aliveN_setObj_node c.obj g.sid g.idx { c.obj (.node g.sid g.idx) with alive := true, mgr := true, acq := (c.obj (.node g.sid g.idx)).acq + 1 } x
-      by_cases hx : x = .node g.sid g.idx
-      · subst hx; simp [hdead, htodo, cntRel, outBitO, hb0, hb1] at this ⊢; omega
-      · have hx' : ¬ Oid.node g.sid g.idx = x := fun e => hx e.symm
-        have hbx : outBitO p' x = outBitO c.pool x := by
-          cases x with
-          | heap k => rfl
-          | node s i =>
-            simp only [outBitO]
-            apply hbo
-            intro ⟨h1, h2⟩; apply hx; rw [h1, h2]
-        simp [hx, htodo, cntRel, hbx] at this ⊢; omega)
-    (fun k hk => ⟨hk, by intro he; cases he⟩)
-    (by intro k hk; cases hk)
-    (by intro k hk; cases hk)
-    (by intro s i _ _; rfl)
-    (by intro s i _ ha; simp at ha)
-    (by intro s hs; left; rw [htodo]; exact List.mem_cons_of_mem _ hs)
-    hun
-  exact this
-
-
-theorem rel_facts {c : Cfg} {t : Nat} {th : Th} {o : Oid} {more : List Act} (h : Inv c) (ht : c.ths[t]? = some th)
-    (htodo : th.todo = .release o :: more) : outBitO c.pool o = true := by
-  have h1 : 0 < cntRel th.todo o := by simp [htodo, cntRel]; omega
-  have h2 := sumT_ge_mem (f := fun th => cntRel th.todo o) (mem_of_getElem? ht)
-  have h3 := h.out o
-  simp only [pendRel] at h3
-  cases hb : outBitO c.pool o with
-  | true => rfl
-  | false => rw [hb] at h3; simp only [b2n_false] at h3; omega
-
-def delActs : Option Slab → List Act
-  | some s => [.delSlab s]
-  | none => []
-
-/-- `ReleaseObject(o)`'s critical section: the node goes back on its slab's free list; the slab may be unlisted for deletion -/
-theorem inv_release {c : Cfg} {t : Nat} {th : Th} {sid i : Nat} {more : List Act} {p' : PoolSt} {del : Option Slab}
-    (h : Inv c) (ht : c.ths[t]? = some th) (htodo : th.todo = .release (.node sid i) :: more) (hrl : release c.pool sid i = (p', del)) :
-    Inv { c with pool := p', ths := c.ths.set t { th with todo := delActs del ++ more } } := by
-  have hb : outBit c.pool sid i = true := by simpa [outBitO] using rel_facts h ht htodo
-  have hs := release_spec h.pool hb
-  rw [hrl] at hs
-  obtain ⟨hp', hb1, hbo, hun, hdl⟩ := hs
-  simp only at hp' hb1 hbo hun hdl
-  have hnd : ∀ x, cntDec (delActs del ++ more) x = cntDec more x := by
-    intro x; cases del <;> simp [delActs, cntDec]
-  have hnr : ∀ x, cntRel (delActs del ++ more) x = cntRel more x := by
-    intro x; cases del <;> simp [delActs, cntRel]
-  refine inv_update (c1 := { c with pool := p' }) (th' := { th with todo := delActs del ++ more })
-    h ht rfl hp' ?_ (fun o ha => Or.inl ha) ?_ ?_ (fun o ha hc => Or.inl ⟨ha, hc⟩) (fun o hr => Or.inl hr) h.acq ?_
-    h.heapFresh h.heapMgr h.heapAcq h.nodeMgr h.fresh ?_ hun
-  · intro x; simp only [Th.refs, hnd, htodo, cntDec]
-  · intro x hx; simp only [Th.refs, hnd, htodo, cntDec] at hx; omega
-  · intro x hx; exact h.raw t th x ht hx
+theorem inv_incNext {c : Cfg} {t : Nat} {th : Th} {a b : Nat} {o n : Oid} {more : List Act} (h : Inv c) (ht : c.ths[t]? = some th)
+    (htodo : th.todo = .incNext a b :: more) (hsa : slotOf th a = some (o, true)) (hsb : slotOf th b = some (n, true)) :
+    Inv { c with obj := bump c n, links := (o, n) :: dropKey c.links o,
+                 ths := c.ths.set t { th with todo := decNext (nextOf c.links o) ++ more } } := by
+  have ⟨hal, hc⟩ := slot_alive h ht hsb
+  have ⟨halo, _⟩ := slot_alive h ht hsa
+  have := inv_inc (l' := (o, n) :: dropKey c.links o) (th' := { th with todo := decNext (nextOf c.links o) ++ more }) h ht hal ?_ (Or.inl ⟨rfl, hc⟩) ?_ ?_
+    (nodup_cons_dropKey h.linksND o n) ?_
+  · exact this
   · intro x
-    simp only [hnr, htodo]
-    by_cases hx : x = .node sid i
-    · subst hx; simp [cntRel, outBitO, hb, hb1]; omega
-    · have hx' : ¬ Oid.node sid i = x := fun e => hx e.symm
-      have hbx : outBitO p' x = outBitO c.pool x := by
-        cases x with
-        | heap k => rfl
-        | node s j =>
-          simp only [outBitO]
-          apply hbo
-          intro ⟨h1, h2⟩; apply hx; rw [h1, h2]
-      simp [cntRel, hx', hbx]
-  · intro s hs
-    simp only [List.mem_append] at hs
-    rcases hs with hs | hs
-    · cases del with
-      | none => simp [delActs] at hs
-      | some s' =>
-        simp only [delActs, List.mem_singleton, Act.delSlab.injEq] at hs
-        subst hs
-        have ⟨h1, h2, h3⟩ := hdl s rfl
-        exact ⟨h1, by rw [h2]; exact h3⟩
-    · have ⟨h1, h2⟩ := h.del t th s ht (by rw [htodo]; exact List.mem_cons_of_mem _ hs)
-      exact ⟨h1, hun _ h2⟩
+    have := cntL_dropKey h.linksND o x
+    simp only [Th.refs, htodo, cntDec, cntDec_append, cntDec_decNext, cntL]
+    by_cases hx : x = n
+    · subst hx; simp; omega
+    · have hx' : ¬ n = x := fun e => hx e.symm
+      simp [hx, hx']; omega
+  · intro x; simp only [htodo, cntRel, cntRel_append, cntRel_decNext]; omega
+  · intro x hx hs'
+    rcases List.mem_append.mp hs' with hs' | hs'
+    · exact absurd hs' (special_not_mem_decNext _ x hx)
+    · rw [htodo]; exact List.mem_cons_of_mem _ hs'
+  · intro x m hm
+    rcases List.mem_cons.mp hm with he | hm
+    · cases he; exact Or.inr halo
+    · exact Or.inl (mem_dropKey.mp hm).1
 
-theorem no_release_heap {c : Cfg} {t : Nat} {th : Th} {k : Nat} {more : List Act} (h : Inv c) (ht : c.ths[t]? = some th)
-    (htodo : th.todo = .release (.heap k) :: more) : False := by
-  have := rel_facts h ht htodo
-  simp [outBitO] at this
-
-/-- `new Obj`: a fresh identity, nobody references it yet -/
-theorem inv_newHeap {c : Cfg} {t : Nat} {th : Th} {a : Nat} (h : Inv c) (ht : c.ths[t]? = some th)
-    (ha : a < th.slots.length) (htodo : th.todo = []) (rest : List Op) :
-    Inv { c with obj := setObj c.obj (.heap c.nextHeap) { c.obj (.heap c.nextHeap) with alive := true, mgr := false, val := 0, acq := (c.obj (.heap c.nextHeap)).acq + 1 },
-                 nextHeap := c.nextHeap + 1,
-                 ths := c.ths.set t { th with slots := th.slots.set a none, raw := some (.heap c.nextHeap),
-                                              todo := decOld (slotOf th a) ++ [.incRaw a], prog := rest } } := by
-  have ⟨hdead, hacq0⟩ := h.heapFresh c.nextHeap (Nat.le_refl _)
-  have hc0 := count_zero_of_dead h hdead
-  have hrefs : ∀ x, ({ th with slots := th.slots.set a none, raw := some (.heap c.nextHeap), todo := decOld (slotOf th a) ++ [.incRaw a], prog := rest } : Th).refs x = th.refs x := by
-    intro x
-    have := refs_clear ha [] [.incRaw a] rest x rfl rfl htodo
-    simpa [Th.refs] using this
-  have := inv_obj1 (o := .heap c.nextHeap)
-    (ob' := { c.obj (.heap c.nextHeap) with alive := true, mgr := false, val := 0, acq := (c.obj (.heap c.nextHeap)).acq + 1 })
-    (p' := c.pool) (nh' := c.nextHeap + 1)
-    (th' := { th with slots := th.slots.set a none, raw := some (.heap c.nextHeap), todo := decOld (slotOf th a) ++ [.incRaw a], prog := rest })
-    h ht h.pool
-    (fun x _ => hrefs x)
-    (by rw [hrefs])
-    (fun _ => Or.inl rfl)
-    (fun _ => rfl)
-    (by intro x hx; simp only [Option.some.injEq] at hx; subst hx; exact Or.inl ⟨rfl, rfl, hc0⟩)
-    (by intro ha'; rw [hdead] at ha'; cases ha')
-    (fun _ => Or.inr hdead)
-    (by have := h.acq (.heap c.nextHeap); rw [hdead] at this; simp at this ⊢; omega)
-    (by intro x; rw [aliveN_setObj_heap]; simp [htodo, cntRel, cntRel_append, cntRel_decOld])
-    (by intro k hk; exact ⟨by omega, by intro he; cases he; omega⟩)
-    (by intro k _; rfl)
-    (by intro k _; simp only; omega)
-    (by intro s i hk; cases hk)
-    (by intro s i hk; cases hk)
-    (by intro s hs
-        simp only [List.mem_append, List.mem_singleton] at hs
-        rcases hs with hs | hs
-        · exact absurd hs (delSlab_not_mem_decOld _ s)
-        · cases hs)
-    (fun _ hs => hs)
-  exact this
+theorem inv_incPop {c : Cfg} {t : Nat} {th : Th} {a : Nat} {o n : Oid} {more : List Act} (h : Inv c) (ht : c.ths[t]? = some th)
+    (htodo : th.todo = .incPop a :: more) (hsa : slotOf th a = some (o, true)) (hn : nextOf c.links o = some n) :
+    Inv { c with obj := bump c n, ths := c.ths.set t { th with slots := th.slots.set a (some (n, true)), todo := .dec o :: more } } := by
+  have hpos : 0 < refs c n := by have := cntL_pos (nextOf_mem hn); have := cntL_le_refs c n; omega
+  have hal := h.alive n hpos
+  have hc : 0 < (c.obj n).count := by rw [h.cnt n]; exact hpos
+  have := inv_inc (l' := c.links) (th' := { th with slots := th.slots.set a (some (n, true)), todo := .dec o :: more }) h ht hal ?_ (Or.inl ⟨rfl, hc⟩) ?_ ?_
+    h.linksND (fun x m hm => Or.inl hm)
+  · exact this
+  · intro x
+    have := cntS_set (y := some (n, true)) (o := x) (slot_get hsa)
+    simp only [Th.refs, htodo, cntDec] at *
+    by_cases h1 : o = x
+    · subst h1
+      by_cases h2 : n = o
+      · subst h2; simp at this ⊢; omega
+      · have h2' : ¬ o = n := fun e => h2 e.symm
+        simp [h2, h2'] at this ⊢; omega
+    · have h1' : ¬ x = o := fun e => h1 e.symm
+      by_cases h2 : n = x
+      · subst h2; simp [h1, h1'] at this ⊢; omega
+      · have h2' : ¬ x = n := fun e => h2 e.symm
+        simp [h1, h2, h1', h2'] at this ⊢; omega
+  · intro x; simp only [htodo, cntRel]
+  · intro x hx hs'
+    rcases List.mem_cons.mp hs' with hs' | hs'
+    · subst hs'; exact absurd hx id
+    · rw [htodo]; exact List.mem_cons_of_mem _ hs'
 
 end Muscle.Conc.RC
